@@ -374,7 +374,8 @@ theorem inv_joinRecv {t : Nat} {s : State} (h : InvX ab (some t) s) (c : Nat) (c
       relay := upd s.relay c .done
       kids := upd s.kids t cs
       acc := upd s.acc t (s.acc t + v)
-      delivered := upd s.delivered c (s.delivered c + 1) } := by
+      delivered := upd s.delivered c (s.delivered c + 1)
+      recv := upd s.recv c (s.recv c ++ [v]) } := by
   have hck := h.kid t c (by rw [hk]; simp)
   have hnd : (c :: cs).Nodup := hk ▸ h.knodup t
   refine ⟨h.nodup, h.qlt, h.wlt, ?_, ?_, ?_, ?_, ?_, ?_, ?_, ?_, h.run, h.nobad⟩
@@ -519,7 +520,7 @@ theorem inv_complete {t : Nat} {s : State} (h : InvX ab (some t) s) : InvX ab no
   have key : ∀ (q : List Nat), q.Nodup → (∀ x, x ∈ q → x < s.ntasks) → (∀ x, x ∈ s.queue → x ∈ q) →
       (∀ w, s.relay t = .polled w → w ∈ q) →
       InvX ab none { s with queue := q, relay := upd s.relay t (.computed (value s t)),
-                            fut := upd s.fut t none } := by
+                            fut := upd s.fut t none, ret := upd s.ret t (some (value s t)) } := by
     intro q hn hlt hsub hwk
     refine ⟨hn, hlt, h.wlt, ?_, h.kid, h.knodup, ?_, ?_, ?_, ?_, ?_, ?_, h.nobad⟩
     · intro c w hw
